@@ -104,6 +104,33 @@ def graphs(draw, max_edges=8, features=None):
                 prev = nm
             edges.append(dict(outs=['ochain'], iouts=[], phony=False, exp=[prev], imp=[], oo=[], vals=[], restat=False, generator=False, deps='',
                               hidden=[], variant='v0', pool='', rsp=None, dd=None, depfile_layout=0))
+    # an alias over the outputs of two different commands, and a command that consumes the alias: the alias itself never
+    # runs, yet its consumer must wait for *both* producers (in any completion order)
+    if f['phony'] and f.get('alias_join', True) and draw(st.integers(0, 5)) == 5:
+        prods = [e for e in edges if not e['phony']]
+        if len(prods) >= 2:
+            i1 = draw(st.integers(0, len(prods) - 1))
+            i2 = draw(st.integers(0, len(prods) - 2))
+            if i2 >= i1:
+                i2 += 1
+            a_, b_ = prods[i1]['outs'][0], prods[i2]['outs'][0]
+            kind = draw(st.sampled_from(['exp', 'oo', 'mixed']))
+            al = dict(outs=['phj'], iouts=[], phony=True, exp=[], imp=[], oo=[], vals=[], restat=False, generator=False, deps='',
+                      hidden=[], variant='v0', pool='', rsp=None, dd=None, depfile_layout=0)
+            if kind == 'exp':
+                al['exp'] = [a_, b_]
+            elif kind == 'oo':
+                al['oo'] = [a_, b_]
+            else:
+                al['exp'], al['oo'] = [a_], [b_]
+            edges.append(al)
+            cj = dict(outs=['ojoin'], iouts=[], phony=False, exp=[srcs[0]], imp=[], oo=[], vals=[], restat=False, generator=False, deps='',
+                      hidden=[], variant='v0', pool='', rsp=None, dd=None, depfile_layout=0)
+            if draw(st.booleans()):
+                cj['exp'] = ['phj']
+            else:
+                cj['oo'] = ['phj']
+            edges.append(cj)
     g = dict(srcs=srcs, edges=edges, pools=pools)
     if f['dyndep'] is True or (f['dyndep'] == 'some' and draw(st.integers(0, 3)) == 3):
         add_dyndep(draw, g, f.get('dd_validation', True))
